@@ -258,6 +258,63 @@ fn structured(w: u32) -> Vec<u64> {
     v.into_iter().map(|x| x & mask).filter(|x| seen.insert(*x)).collect()
 }
 
+/// the forward 64-bit steps, transcribed for INPUT GENERATION only (never for a verdict): step j maps the value after
+/// source statement j-1 to the value after statement j
+fn fwd64_from(j: usize, mut key: u64) -> u64 {
+    let steps: [fn(u64) -> u64; 7] = [
+        |k| (!k).wrapping_add(k << 21),
+        |k| k ^ k >> 24,
+        |k| k.wrapping_add(k << 3).wrapping_add(k << 8),
+        |k| k ^ k >> 14,
+        |k| k.wrapping_add(k << 2).wrapping_add(k << 4),
+        |k| k ^ k >> 28,
+        |k| k.wrapping_add(k << 31),
+    ];
+    for st in steps.iter().skip(j) {
+        key = st(key);
+    }
+    key
+}
+
+fn fwd32_from(j: usize, mut key: u32) -> u32 {
+    let steps: [fn(u32) -> u32; 6] = [
+        |k| k.wrapping_add(!(k << 15)),
+        |k| k ^ (k >> 10),
+        |k| k.wrapping_add(k << 3),
+        |k| k ^ (k >> 6),
+        |k| k.wrapping_add(!(k << 11)),
+        |k| k ^ (k >> 16),
+    ];
+    for st in steps.iter().skip(j) {
+        key = st(key);
+    }
+    key
+}
+
+/// boundary w=64|32 out=<json> : words whose INTERMEDIATE value at every statement boundary of the pipelines is a
+/// structured word (a fast path or tie guarding one inverse block fires on such a value, not on a structured input):
+/// for a structured s and a boundary j, y = (forward steps j+1..)(s) is the hash whose inversion passes through s, and
+/// x = inverse(y) is the input whose hashing passes through s.  Round trips in both directions on all of them.
+fn boundary(a: &Args) {
+    silence_panics();
+    let w = a.u64_or("w", 64) as u32;
+    let nsteps = if w == 64 { 7 } else { 6 };
+    let base = structured(w);
+    let mut acc = Acc::default();
+    let mut seen = std::collections::HashSet::new();
+    for j in 0..=nsteps {
+        for s in &base {
+            let y = if w == 64 { fwd64_from(j, *s) } else { fwd32_from(j, *s as u32) as u64 };
+            for v in [Some(y), catch(|| ih(w, y)).ok()].into_iter().flatten() {
+                if seen.insert(v) {
+                    check_slow(w, v, &mut acc);
+                }
+            }
+        }
+    }
+    write_json(&a.str("out"), &acc.to_json());
+}
+
 fn bits(w: u32, x: u64) -> Vec<u8> {
     (0..w).map(|i| ((x >> i) & 1) as u8).collect()
 }
@@ -345,6 +402,7 @@ fn main() {
     match argv[1].as_str() {
         "exh32" => exh32(&a),
         "rt64" => rt64(&a),
+        "boundary" => boundary(&a),
         "record" => record(&a),
         "one" => one(&a),
         other => tool_error(&format!("unknown subcommand {}", other)),
